@@ -182,6 +182,56 @@ static void obs(const Tri& t) {
 static int run_objects(Rng& rng) {
     const int histories = thorough() ? 300 : 50;
     // ---- tridiagonal solver: lock-step histories against the Coq model ----
+    // ---- targeted histories first: source AND target have already solved (their hidden state differs), then each of
+    //      the four special members, then both solve again ----
+    for (int op = 5; op <= 9; op++) {
+        if (op == 7) continue;
+        for (int cyc = 0; cyc < 2; cyc++) {
+            std::printf("# targeted history op=%d cyc=%d\n", op, cyc);
+            std::vector<std::unique_ptr<Tri>> slot(4);
+            for (int i = 0; i < 4; i++) { slot[i] = std::make_unique<Tri>(); std::printf("T default %d => ", i); obs(*slot[i]); std::printf("\n"); }
+            TriSys src_sys;
+            for (int d = 0; d < 2; d++) {
+                int n = 4 + d; TriSys sys = random_tri(rng, n, cyc, 0);
+                if (d == 1) for (auto& v : sys.main) v *= 2.5;      // different first diagonal entry => different gamma
+                if (d == 0) src_sys = sys;
+                slot[d] = std::make_unique<Tri>(n); fill(*slot[d], sys);
+                std::printf("T new %d %d %d |", d, n, cyc ? 1 : 0); pv(sys.main); std::printf(" |"); pv(sys.sub);
+                std::printf(" | %s => ", hx(sys.corner).c_str()); obs(*slot[d]); std::printf("\n");
+                std::vector<double> b(n), t1(n), t2(n); for (auto& x : b) x = rng.nice(-4, 4);
+                std::printf("T solve %d |", d); pv(b); slot[d]->solveInPlace(b.data(), t1.data(), t2.data());
+                std::printf(" =>"); pv(b); std::printf(" ; "); obs(*slot[d]); std::printf("\n");
+            }
+            int d = (op == 5 || op == 8) ? 2 : 1, s = 0;
+            const char* name = op == 5 ? "copyctor" : op == 6 ? "copyassign" : op == 8 ? "movector" : "moveassign";
+            std::printf("T %s %d %d => ", name, d, s);
+            if (op == 5) slot[d] = std::make_unique<Tri>(*slot[s]);
+            else if (op == 6) *slot[d] = *slot[s];
+            else if (op == 8) slot[d] = std::make_unique<Tri>(std::move(*slot[s]));
+            else *slot[d] = std::move(*slot[s]);
+            obs(*slot[d]); std::printf(" ; "); obs(*slot[s]); std::printf("\n");
+            int n = slot[d]->rows();
+            std::vector<double> b(n), t1(n), t2(n); for (auto& x : b) x = rng.nice(-4, 4);
+            std::vector<double> b0 = b;
+            std::printf("T solve %d |", d); pv(b); slot[d]->solveInPlace(b.data(), t1.data(), t2.data());
+            std::printf(" =>"); pv(b); std::printf(" ; "); obs(*slot[d]); std::printf("\n");
+            // the property, evaluated on the implementation alone: the copy / moved-to object solves the SOURCE's system
+            // (residual against the matrix entries the source was filled with)
+            {
+                const TriSys& A = src_sys; double worst = 0, scale = 0;
+                for (int i = 0; i < n; i++) {
+                    double r = A.main[i] * b[i] - b0[i];
+                    if (i > 0) r += A.sub[i - 1] * b[i - 1];
+                    if (i + 1 < n) r += A.sub[i] * b[i + 1];
+                    if (cyc && i == 0) r += A.corner * b[n - 1];
+                    if (cyc && i == n - 1) r += A.corner * b[0];
+                    worst = std::max(worst, std::fabs(r)); scale = std::max(scale, std::fabs(b0[i]) + std::fabs(A.main[i] * b[i]));
+                }
+                std::printf("PROP %s-solves-source-system cyc=%d rel=%.3e => %s\n", name, cyc, worst / std::max(scale, 1e-300),
+                            n == (int)A.main.size() && worst <= 1e-9 * scale ? "ok" : "FAIL the copied / moved-to solver does not solve the system its source held");
+            }
+        }
+    }
     for (int h = 0; h < histories; h++) {
         std::printf("# history %d\n", h);
         std::vector<std::unique_ptr<Tri>> slot(4);
